@@ -7,7 +7,7 @@ package main
 import "strings"
 
 func init() {
-	register(&Prop{ID: "C11", Module: "V.C11.Check", Gen: c11Gen, Quick: 700, Thorough: 12000, Shard: 120})
+	register(&Prop{ID: "C11", Module: "V.C11.Check", Gen: c11Gen, Quick: 600, Thorough: 5000, Shard: 100})
 }
 
 // does the compiled prefix have a connection (s -> t)[i] (graph index)?
@@ -54,8 +54,9 @@ func c11Gen(r *Rng, tier string, n int) []Case {
 		}
 		out = append(out, c10Cases(p, "corpus", c11KFStep)...)
 	}
+	base := NewRng(r.U64() ^ 0x5DEECE66D)
 	for len(out) < n {
-		p, class := c10RandProgram(r.Fork(), true)
+		p, class := c10RandProgram(base.Fork(), true)
 		out = append(out, c10Cases(p, class, c11KFStep)...)
 	}
 	return out
